@@ -195,6 +195,30 @@ pub fn tags_for(input: &str) -> Vec<String> {
             k += 1;
         }
     }
+    // a manifest binder in its own parentheses: `((p) as D ..)`
+    {
+        let code: Vec<&e2::scan::Token> = tokens.iter().filter(|t| t.is_code()).collect();
+        for k in 0..code.len().saturating_sub(1) {
+            if code[k].text(input) == "(" && code[k + 1].text(input) == "(" {
+                let mut depth = 0i32;
+                for j in k + 1..code.len() {
+                    match code[j].text(input) {
+                        | "(" => depth += 1,
+                        | ")" => {
+                            depth -= 1;
+                            if depth == 0 {
+                                if code.get(j + 1).map(|t| t.text(input)) == Some("as") && !tags.contains(&"parenthesized-manifest-binder".to_string()) {
+                                    tags.push("parenthesized-manifest-binder".into());
+                                }
+                                break;
+                            }
+                        }
+                        | _ => {}
+                    }
+                }
+            }
+        }
+    }
     for (i, t) in tokens.iter().enumerate() {
         if t.kind == e2::scan::Kind::BlockComment {
             // a block comment followed on the same line by more code
